@@ -32,8 +32,8 @@ def iter_components(it):
             return iter_components(it["recv"])
         if m in ("iter", "iter_mut"):
             return [(it, m)]
-        if m in ("rev",):
-            return iter_components(it["recv"])
+        if m in ("rev", "map", "copied", "cloned", "by_ref", "inspect"):
+            return iter_components(it["recv"])      # one element out per element in: the same positions are visited
         if m == "flat_map" and it["args"] and strip(it["args"][0]).get("k") == "closure":
             # outer.iter_mut().flat_map(|row| row.iter_mut()): every element of every row, i.e. the whole nested store
             base = iter_components(it["recv"])
